@@ -145,8 +145,15 @@ func pipeFSDriverArgs(args, real json.RawMessage) any {
 		abs := filepath.Join(root, b.Name)
 		// the reference strings under which the file can be named: as written (two spellings), and absolute — what
 		// `ResolveRelativePaths` of an extended file turns a nested `extends.file` into
+		// `loader.Dir(refPath)` of the local resource loader: the file's directory RELATIVE to the loader's working directory
+		// (`.` or `sub`): the paths inside an extended file come out relative and are made absolute — or not, under
+		// `ResolvePaths = false` — by the main pipeline
+		reldir, err := filepath.Rel(root, filepath.Dir(abs))
+		if err != nil {
+			reldir = filepath.Dir(abs)
+		}
 		for _, ref := range []string{b.Name, "./" + b.Name, abs} {
-			bs = append(bs, M{"ref": ref, "reldir": filepath.Dir(abs), "docs": []json.RawMessage{doc}})
+			bs = append(bs, M{"ref": ref, "reldir": reldir, "docs": []json.RawMessage{doc}})
 		}
 	}
 	out["bases"] = bs
@@ -261,6 +268,33 @@ func c01PipeFS(ctx *core.Ctx) {
 		svcOf(docs[r.Intn(len(docs))], "a")["extends"] = ext
 		o := pipeline.GenOpts(r)
 		o.Extends = true
+		// relative paths inside the extended files, and the main pipeline not resolving paths: where the anchoring of an
+		// extended file (its own directory, relative to the loader's) shows in the result
+		anchoring := "plain"
+		if r.Intn(2) == 0 {
+			for j := range bases {
+				for _, n := range []string{"b", "c"} {
+					if svcs, ok := bases[j]["services"].(M); ok {
+						if sv, ok := svcs[n].(M); ok && r.Intn(2) == 0 {
+							switch r.Intn(3) {
+							case 0:
+								sv["build"] = []any{"./ctx", M{"context": "../up", "dockerfile": "D"}, "."}[r.Intn(3)]
+							case 1:
+								sv["env_file"] = []any{"e.env", L{"./e.env", M{"path": "../f.env", "required": false}}}[r.Intn(2)]
+							default:
+								sv["volumes"] = L{"./data:/data", M{"type": "bind", "source": "../src", "target": "/src"}}
+							}
+						}
+					}
+				}
+			}
+			anchoring = "base-has-relative-paths"
+			if r.Intn(2) == 0 {
+				o.ResolvePaths = false
+				anchoring += "+noResolvePaths"
+			}
+		}
+		ctx.Count("pipefs:anchoring:" + anchoring)
 		a := pipeFSArgs{Docs: pipeline.EncDocs(docs), Opts: o, Env: pipeline.GenEnv(r), Name: "proj"}
 		for j, n := range bn {
 			a.Bases = append(a.Bases, pipeFSBase{Name: n, Doc: core.EncodeVal(bases[j])})
